@@ -7,16 +7,17 @@ namespace Rsj.Parser
 section
 variable {toks : List Token} (pe : PState toks → Except (Err toks) (Expr × PState toks))
 
-/-- the token does not begin a postfix form -/
+/-- the token does not begin a postfix form (and is not the `tailstrict` that may end a call) -/
 def NotSuffixStart (tk : TokKind) : Prop :=
-  tk ≠ sim .Dot ∧ tk ≠ sim .LeftBracket ∧ tk ≠ sim .LeftParen ∧ tk ≠ sim .LeftBrace
+  tk ≠ sim .Dot ∧ tk ≠ sim .LeftBracket ∧ tk ≠ sim .LeftParen ∧ tk ≠ sim .LeftBrace ∧
+    tk ≠ sim .Tailstrict
 
 theorem cur_pushIf (st : PState toks) (add : Bool) (e : Expected) : (st.pushIf add e).cur = st.cur := by
   unfold PState.pushIf PState.push; split <;> rfl
 
 theorem suffix_done {st : PState toks} (lhs : Expr) (h : NotSuffixStart st.cur.kind) :
     ∃ st', st'.kinds = st.kinds ∧ ∀ f, parseSuffixExpr pe (f + 1) lhs st = .ok (lhs, st') := by
-  obtain ⟨h1, h2, h3, h4⟩ := h
+  obtain ⟨h1, h2, h3, h4, _⟩ := h
   simp only [sim] at h1 h2 h3 h4
   refine ⟨(((st.pushIf true (.simple .Dot)).pushIf true (.simple .LeftBracket)).pushIf true
     (.simple .LeftParen)).pushIf true (.simple .LeftBrace), ?_, fun f => ?_⟩
